@@ -124,7 +124,18 @@ def s2(chk: Check, proj: Project) -> None:
                f"the returned `{v}` is not (last) assigned from safe_join(root, ...): a request path with `..` can resolve to a file outside the component directory (a string-prefix check has no separator boundary)")
         at = cond_atoms(r)
         ok_valid = any(pol and f"self._is_path_valid({v})" in t for t, pol in at)
-        chk.ob("S2", "finders:find_location:filtered", m.loc(r), ok_valid, "returned only if _is_path_valid(path)" if ok_valid else "a path is returned without passing _is_path_valid")
+        # ... and the validity test looks at the JOINED (normalised) path: it is evaluated after the safe_join assignment
+        from ..cfg import CFG
+
+        cfg = CFG(f)
+        dom = cfg.dominators()
+        tests = [n for n in cfg.nodes if n.kind == "test" and n.ast is not None and f"self._is_path_valid({v})" in norm(n.ast)]
+        joins = [n for a in sj for n in cfg.nodes_of(a[0])]
+        after_join = bool(tests) and bool(joins) and all(any(cfg.dominates(j, t, dom) for j in joins) for t in tests)
+        chk.ob("S2", "finders:find_location:filtered", m.loc(r), ok_valid and after_join,
+               "returned only if _is_path_valid(<joined path>)" if ok_valid and after_join else
+               ("a path is returned without passing _is_path_valid" if not ok_valid else
+                "the allowed/forbidden test is applied to the raw request string BEFORE safe_join normalises it: `card/card.py/.` does not end in a forbidden suffix, passes, and is then resolved to the forbidden file"))
     m2, f2 = proj.func("finders", "ComponentsFileSystemFinder.list")
     chk.analysed(fkey(m2, f2))
     ys = [n for n in body_walk(f2) if isinstance(n, ast.Yield)]
@@ -211,6 +222,15 @@ def s5_accessors(chk: Check, proj: Project, names: List[str], rule: str = "S5") 
         rets = [s for s in stmts(f) if isinstance(s, ast.Return) and s.value is not None]
         ors = [b for s in stmts(f) for b in ast.walk(s) if isinstance(b, ast.BoolOp) and isinstance(b.op, ast.Or) and any("_settings." in norm(v) or norm(v) == "val" for v in b.values)]
         dflt = [c for st_ in stmts(f) for c in ast.walk(st_) if isinstance(c, ast.Call) and last_attr(c.func) == "default"]
+        # a value that already went through default(x, <non-None>) is never None: a later `is None` fallback is dead
+        dead = []
+        for st_ in stmts(f):
+            if isinstance(st_, ast.If) and isinstance(st_.test, ast.Compare) and isinstance(st_.test.ops[0], ast.Is) and isinstance(st_.test.left, ast.Name) and isinstance(st_.test.comparators[0], ast.Constant) and st_.test.comparators[0].value is None:
+                prior = [a for a in assignments(f, st_.test.left.id) if a[0].lineno < st_.lineno]
+                if prior and isinstance(prior[-1][1], ast.Call) and last_attr(prior[-1][1].func) == "default":
+                    dead.append(st_)
+        if dead:
+            chk.violated(rule, f"app_settings:InternalSettings.{nm}:dead-fallback", m.loc(dead[0]), f"`{short(dead[0].test)}` can never be true because the value already went through default(...): the fallback to the deprecated setting name below it is dead, so a list configured under the old name is silently ignored")
         ok = bool(dflt) and not ors
         chk.ob(rule, f"app_settings:InternalSettings.{nm}", m.loc(f), ok, "returns default(<configured>, <fallback>) (None-check)" if ok else
                f"`{short(ors[0]) if ors else short(rets[0]) if rets else nm}` falls back to the default for every FALSY configured value: an explicit empty list / 0 is silently replaced by the default")
